@@ -164,8 +164,22 @@ func main() {
 		multiFamily(full, emit)
 		rep.Exhaustive = append(rep.Exhaustive, "multi-valued operands: operators x pairs of wildcard selections of 0..4 values (with containers inside)")
 	}
+	if on("typed") {
+		cells := typedMatrix(full, emit)
+		nt := len(typedReps(full))
+		rep.Exhaustive = append(rep.Exhaustive, fmt.Sprintf("typed Go operands: %d binary operators x (%d typed x %d typed + %d typed x %d JSON-like values in both orders) + %d unary operators x %d typed values, every operand through a path (typed kinds: sized ints, float32, gen scalars — normalised; named scalars, arrays, pointers, comparable structs — opaque comparable; []int, []string, map[string]int, struct with slice field, gen.Array, gen.Object, named []any / map[string]any, [1][]int — uncomparable): %d cells",
+			len(binOps), nt, nt, nt, len(coreCompanions()), len(unOps), nt, cells))
+	}
 	if on("bare") {
 		bareFamily(emit)
+		bareMultiFamily(emit)
+		rep.Exhaustive = append(rep.Exhaustive, "bare-path filters: wildcard paths yielding 0, 1, 2+ values (true/false/null/number/container/typed values) as the whole script, through Filter (Get, First, NewFilter.Match) and Script (Match, Eval) routes")
+	}
+	if on("baremeta") {
+		bareMetaFamily()
+	}
+	if on("trap") {
+		trapFamily()
 	}
 	if on("fnarg") {
 		fnargFamily(emit)
@@ -239,12 +253,16 @@ func matchChars(sc *jp.Script, data []any) (chars string, msg string) {
 	return sb.String(), msg
 }
 
-func renderList(vs []any) string { return lib.Render(vs) }
+// results are rendered in the token form of this harness (it keeps int8(1), int64(1) and gen.Int(1) apart,
+// which the shared canonical renderer does not)
+func renderList(vs []any) string { return "[" + valToks(vs) + "]" }
+
+func renderOne(v any) string { return valToks(v) }
 
 func renderSorted(vs []any) string {
 	parts := make([]string, len(vs))
 	for i, v := range vs {
-		parts[i] = lib.Render(v)
+		parts[i] = renderOne(v)
 	}
 	sort.Strings(parts)
 	return "[" + strings.Join(parts, ",") + "]"
@@ -290,7 +308,7 @@ func expect(mode, chars string, data []any) string {
 		if len(sel) == 0 {
 			return "none"
 		}
-		return lib.Render(sel[0])
+		return renderOne(sel[0])
 	}
 	return "?"
 }
@@ -417,7 +435,7 @@ func runRoutes(k kase) []route {
 			if len(vs) == 0 {
 				return "none"
 			}
-			return lib.Render(vs[0])
+			return renderOne(vs[0])
 		})
 		rs = append(rs, route{name: "builder.first", mode: "first", key: "doc", impl: o, msg: m, wrap0: 'b'})
 		if !k.t.hasRootPath() {
